@@ -136,6 +136,63 @@ theorem handleConnect_no_handler {s : Srv} (h : WF s) (cfg : Cfg) {t : Eio} {nsp
       rcases hr with hr | hr <;> rw [hr] <;> dsimp only <;> cases hac : cfg.alwaysConnect <;>
         simp [hsend, connected]
 
+theorem sendTo_closed {s : Srv} {t : Eio} (ht : t ∉ s.socks) (p : Packet) :
+    sendTo s (some t) p = [] := by
+  unfold sendTo
+  simp [ht]
+
+/-- CONNECT from a transport engine.io never opened: `environ[eio_sid]` raises `KeyError` after
+    `manager.connect` registered the session -/
+theorem handleConnect_no_environ {s : Srv} (h : WF s) (cfg : Cfg) {t : Eio} {nsp : Option Str}
+    (data : Option J)
+    (hs : isServed cfg (nsp.getD ['/']) = true) (hn : sidOf s.rooms (nsp.getD ['/']) t = none)
+    (ht : t ∉ s.socks) :
+    handleConnect cfg s t nsp data =
+      (connected s (roomsAfterConnect s.rooms (nsp.getD ['/']) t (sidName s.nextSid)),
+        [.raised .keyError]) := by
+  have hc := connect_of_not_connected hn (sidName s.nextSid)
+  have henv : s.environ.contains t = false := by
+    rw [h.envSocks, Bool.eq_false_iff]; intro hc; exact ht (List.contains_iff_mem.mp hc)
+  have hsend : ∀ (s' : Srv) (p : Packet), s'.socks = s.socks → sendTo s' (some t) p = [] :=
+    fun s' p hq => sendTo_closed (by rw [hq]; exact ht) p
+  unfold handleConnect
+  dsimp only
+  rw [if_pos hs, hc]
+  dsimp only
+  rw [henv]
+  cases cfg.alwaysConnect <;> simp [hsend, connected]
+
+/-- the name "connect" cannot be looked up (cannot happen for a string; kept for totality) -/
+theorem handleConnect_resolve_error {s : Srv} (h : WF s) (cfg : Cfg) {t : Eio} {nsp : Option Str}
+    (data : Option J) {e : Err}
+    (hs : isServed cfg (nsp.getD ['/']) = true) (hn : sidOf s.rooms (nsp.getD ['/']) t = none)
+    (ht : t ∈ s.socks)
+    (hr : resolve cfg.reg (nsp.getD ['/']) (.str "connect".toList)
+            (.str (sidName s.nextSid) :: authArgs data) = .error e) :
+    handleConnect cfg s t nsp data =
+      (connected s (roomsAfterConnect s.rooms (nsp.getD ['/']) t (sidName s.nextSid)),
+        (if cfg.alwaysConnect then [.send t (pktConnect (nsp.getD ['/']) (sidName s.nextSid))] else [])
+          ++ [.raised .typeError]) := by
+  have hc := connect_of_not_connected hn (sidName s.nextSid)
+  have henv : s.environ.contains t = true := by
+    rw [h.envSocks]; exact List.contains_iff_mem.mpr ht
+  have hsend : ∀ (s' : Srv) (p : Packet), s'.socks = s.socks → sendTo s' (some t) p = [.send t p] :=
+    fun s' p hq => sendTo_open (by rw [hq]; exact ht) p
+  unfold handleConnect
+  dsimp only
+  rw [if_pos hs, hc]
+  dsimp only
+  rw [henv]
+  simp only [Bool.not_true, Bool.false_eq_true, if_false]
+  rcases data with _ | d
+  · simp only [authArgs] at hr
+    rw [hr]; cases cfg.alwaysConnect <;> simp [hsend, connected]
+  · by_cases hd : d.truthy = true
+    · simp only [authArgs, hd, if_true] at hr ⊢
+      rw [hr]; cases cfg.alwaysConnect <;> simp [hsend, connected]
+    · simp only [authArgs, hd] at hr ⊢
+      rw [hr]; cases cfg.alwaysConnect <;> simp [hsend, connected]
+
 /-! ### the session-id counter -/
 
 theorem nextSid_prim {s s' : Srv} (_hw : WF s) (p : Prim s s') : s.nextSid ≤ s'.nextSid := by
